@@ -182,7 +182,7 @@ pub fn gen_cfg(prop: &str, seed: u64) -> RunCfg {
         "C01" => {
             let pp = phys_pct_for(&mut g.rng);
             let spec = any_stack(&mut g, pp);
-            let mut world = World { m: vec![spec.view()] };
+            let mut world = World { m: vec![spec.view()], w: Default::default() };
             g.avoid_known = spec.has_ovl();
             let n = g.rng.range(4, 40);
             let w = swarm_weights(&mut g.rng, &W_DEFAULT);
@@ -192,7 +192,7 @@ pub fn gen_cfg(prop: &str, seed: u64) -> RunCfg {
         "C09" => {
             let pp = phys_pct_for(&mut g.rng);
             let spec = overlay_stack(&mut g, pp, 1, 4);
-            let mut world = World { m: vec![spec.view()] };
+            let mut world = World { m: vec![spec.view()], w: Default::default() };
             g.avoid_known = spec.has_ovl();
             let n = g.rng.range(4, 30);
             // biased to the union/contract interactions: create over lower-only, remove, append
@@ -204,7 +204,7 @@ pub fn gen_cfg(prop: &str, seed: u64) -> RunCfg {
         "C10" => {
             let pp = phys_pct_for(&mut g.rng);
             let spec = overlay_stack(&mut g, pp, 2, 4);
-            let mut world = World { m: vec![spec.view()] };
+            let mut world = World { m: vec![spec.view()], w: Default::default() };
             g.avoid_known = spec.has_ovl();
             let cycles = g.rng.range(1, 4);
             let mut ops = vec![];
@@ -225,7 +225,7 @@ pub fn gen_cfg(prop: &str, seed: u64) -> RunCfg {
             let pp = phys_pct_for(&mut g.rng);
             let spec = if g.rng.pct(50) { overlay_stack(&mut g, pp, 1, 3) } else { any_stack(&mut g, pp) };
             g.domain = Domain::Unrestricted;
-            let mut world = World { m: vec![spec.view()] };
+            let mut world = World { m: vec![spec.view()], w: Default::default() };
             g.avoid_known = spec.has_ovl();
             let n = g.rng.range(4, 30);
             let w = swarm_weights(&mut g.rng, &W_DEFAULT);
@@ -251,7 +251,7 @@ pub fn gen_cfg(prop: &str, seed: u64) -> RunCfg {
                 }
             }
             g.nfs = specs.len();
-            let mut world = World { m: specs.iter().map(|s| s.view()).collect() };
+            let mut world = World { m: specs.iter().map(|s| s.view()).collect(), w: Default::default() };
             g.avoid_known = specs.iter().any(|s| s.has_ovl());
             // grow source trees first, then transfer-heavy mix
             let grow: [u32; 19] = [0, 0, 0, 0, 0, 0, 0, 0, 10, 8, 0, 0, 0, 12, 2, 0, 0, 0, 0];
@@ -265,8 +265,178 @@ pub fn gen_cfg(prop: &str, seed: u64) -> RunCfg {
             cfg.extra.insert("pair".into(), ["same", "twin", "different"][pair].into());
             cfg
         }
+        "C12" => {
+            let pp = phys_pct_for(&mut g.rng);
+            let spec = if g.rng.pct(60) { any_stack(&mut g, pp) } else { overlay_stack(&mut g, pp, 1, 3) };
+            let mut world = World { m: vec![spec.view()], w: Default::default() };
+            g.avoid_known = spec.has_ovl();
+            let n = g.rng.range(4, 30);
+            let w = swarm_weights(&mut g.rng, &W_DEFAULT);
+            let mut ops = vec![];
+            for _ in 0..n {
+                let mut batch = gen_history(&mut g, &mut world, 1, &w);
+                if let Some(op) = batch.pop() {
+                    if g.rng.pct(8) {
+                        // trailing-slash join argument: must be rejected as an invalid path
+                        let bad = crate::mon_twin::map_op(&op, &|p: &P| P { fs: p.fs, s: format!("{}/", if p.s.is_empty() { "x" } else { &p.s }) }, 0);
+                        ops.push(bad);
+                    }
+                    ops.push(op);
+                }
+                if g.rng.pct(8) {
+                    let t = g.target_w(&world.m[0], &[(Tc::File, 40), (Tc::Dir, 30), (Tc::AbsentInDir, 30)]);
+                    let f = *g.rng.pick(&[TField::Created, TField::Created, TField::Modified, TField::Accessed]);
+                    ops.push(Op::SetTime(P::new(&t), f, g.rng.range(0, 2_000_000_000) as i64, 0));
+                }
+            }
+            base_cfg(prop, "contract", seed, &mut g, vec![spec], ops)
+        }
+        "C02" => {
+            g.size_profile = 1;
+            let specs = vec![Spec::Mem { pre: vec![] }, Spec::Phys { pre: vec![] }];
+            let mut world = World { m: vec![Model::new(), Model::new()], w: Default::default() };
+            let n = g.rng.range(4, 30);
+            let w = swarm_weights(&mut g.rng, &W_DEFAULT);
+            let mut ops = vec![];
+            for _ in 0..n {
+                ops.extend(gen_history(&mut g, &mut world, 1, &w));
+                if g.rng.pct(15) {
+                    ops.extend(reader_block(&mut g, &world.m[0], 0));
+                }
+            }
+            base_cfg(prop, "twin", seed, &mut g, specs, ops)
+        }
+        "C07" => {
+            let pp = phys_pct_for(&mut g.rng);
+            let under = match g.rng.weighted(&[45, 35, 20]) {
+                0 => g.leaf(pp),
+                1 => {
+                    let n = g.rng.range(1, 3);
+                    Spec::Ovl { layers: (0..n).map(|_| g.leaf(pp)).collect() }
+                }
+                _ => Spec::Alt { inner: Box::new(g.leaf(pp)), p: g.alt_p(false) },
+            };
+            let mut spec = Spec::Alt { inner: Box::new(under), p: g.alt_p(true) };
+            if g.rng.pct(85) {
+                let view = g.gen_view(8);
+                g.populate(&mut spec, &view, false);
+            }
+            g.add_beside(&mut spec);
+            let inner = match &spec {
+                Spec::Alt { inner, .. } => (**inner).clone(),
+                _ => unreachable!(),
+            };
+            let mut world = World { m: vec![spec.view(), inner.view()], w: Default::default() };
+            g.avoid_known = spec.has_ovl();
+            let n = g.rng.range(4, 30);
+            let w = swarm_weights(&mut g.rng, &W_DEFAULT);
+            let ops0 = gen_history(&mut g, &mut world, n, &w);
+            // second pass: hostile but equivalent path expressions
+            let mut ops = vec![];
+            for op in ops0 {
+                if g.rng.pct(45) {
+                    let names = g.names.clone();
+                    let r = std::cell::RefCell::new(&mut g.rng);
+                    ops.push(crate::mon_twin::map_op(&op, &|p: &P| P { fs: p.fs, s: hostile(&p.s, &mut r.borrow_mut(), &names) }, 0));
+                } else {
+                    ops.push(op);
+                }
+            }
+            base_cfg(prop, "altroot", seed, &mut g, vec![spec, inner], ops)
+        }
+        "C08" => {
+            let pp = phys_pct_for(&mut g.rng);
+            let spec = overlay_stack(&mut g, pp, 2, 4);
+            if g.rng.pct(30) {
+                g.domain = Domain::Unrestricted;
+            }
+            let mut world = World { m: vec![spec.view()], w: Default::default() };
+            g.avoid_known = true;
+            let n = g.rng.range(4, 30);
+            let w = swarm_weights(&mut g.rng, &W_DEFAULT);
+            let mut ops = vec![];
+            for _ in 0..n {
+                ops.extend(gen_history(&mut g, &mut world, 1, &w));
+                if g.rng.pct(12) {
+                    let t = g.target_w(&world.m[0], &[(Tc::File, 50), (Tc::Dir, 30), (Tc::AbsentInDir, 20)]);
+                    let f = *g.rng.pick(&[TField::Created, TField::Modified, TField::Accessed]);
+                    ops.push(Op::SetTime(P::new(&t), f, g.rng.range(0, 2_000_000_000) as i64, g.rng.below(1_000_000_000) as u32));
+                }
+            }
+            base_cfg(prop, "record", seed, &mut g, vec![spec], ops)
+        }
         _ => panic!("no generator for {}", prop),
     }
+}
+
+/// open a reader on a file (or sometimes something else), seek/read a little, drop it
+pub fn reader_block(g: &mut Gen, m: &Model, slot: u8) -> Vec<Op> {
+    // only files: opening a directory is judged as open+read (Op::ReadFile), because the OS lets
+    // a directory be opened and fails only on read
+    let t = match g.target(m, Tc::File) {
+        Some(t) => t,
+        None => return vec![],
+    };
+    let len = m.file(&t).map(|b| b.len()).unwrap_or(0) as i64;
+    let mut ops = vec![Op::OpenRead(P::new(&t), slot)];
+    for _ in 0..g.rng.range(1, 6) {
+        if g.rng.pct(50) {
+            let n = *g.rng.pick(&[0usize, 1, 2, 3, 7, 64, 8192]);
+            ops.push(Op::HRead(slot, n));
+        } else {
+            let off = *g.rng.pick(&[0, 1, -1, len, len + 1, len - 1, -len, -len - 1, 3, 100_000]);
+            let w = *g.rng.pick(&[Whence::Start, Whence::Current, Whence::End]);
+            let off = if w == Whence::Start { off.max(0) } else { off };
+            ops.push(Op::HSeek(slot, w, off));
+        }
+    }
+    ops.push(Op::HDrop(slot));
+    ops
+}
+
+/// an equivalent but hostile join argument for a canonical path
+pub fn hostile(q: &str, rng: &mut Rng, names: &[String]) -> String {
+    let comps: Vec<&str> = q.split('/').filter(|c| !c.is_empty()).collect();
+    let nm = |rng: &mut Rng| names[rng.below(names.len())].clone();
+    if comps.is_empty() {
+        return match rng.below(6) {
+            0 => "/".into(),
+            1 => ".".into(),
+            2 => "..".into(),
+            3 => format!("{}/..", nm(rng)),
+            4 => "../..".into(),
+            _ => format!("/../{}/./..", nm(rng)),
+        };
+    }
+    let mut out = String::new();
+    match rng.below(5) {
+        0 => {}
+        1 => out.push('/'),
+        2 => out.push_str("../../"),
+        3 => out.push_str("/../"),
+        _ => out.push_str(&format!("{}/../", nm(rng))),
+    }
+    for (i, c) in comps.iter().enumerate() {
+        if i > 0 {
+            match rng.below(5) {
+                0 => out.push_str("//"),
+                1 => out.push_str("/./"),
+                2 => out.push_str(&format!("/{}/../", nm(rng))),
+                _ => out.push('/'),
+            }
+        }
+        out.push_str(c);
+    }
+    match rng.below(6) {
+        0 => out.push_str(&format!("/{}/{}/../..", nm(rng), nm(rng))),
+        1 => out.push_str("/."),
+        _ => {}
+    }
+    // the transformation must be canon-preserving
+    if canon(&out).ok().as_deref() != Some(q) {
+        return q.to_string();
+    }
+    out
 }
 
 pub fn strip_pre(s: &mut Spec) {
@@ -283,6 +453,10 @@ pub fn run_cfg(cfg: &RunCfg, trace: bool) -> RunOut {
         "C01" | "C09" | "C11" => run_contract(cfg, trace, &mut contract_monitor),
         "C10" => crate::mon_overlay::run_c10(cfg, trace),
         "C03" | "C05" => crate::mon_invariant::run(cfg, trace),
+        "C12" => crate::mon_err::run(cfg, trace),
+        "C02" => crate::mon_twin::run_c02(cfg, trace),
+        "C07" => crate::mon_twin::run_c07(cfg, trace),
+        "C08" => crate::mon_overlay::run_c08(cfg, trace),
         p => RunOut { harness_error: Some(format!("no runner for {}", p)), ..Default::default() },
     }
 }
@@ -501,10 +675,23 @@ pub fn shrink_candidates(prop: &str, cfg: &Value, v: &Violation) -> Vec<Value> {
         out.push(t);
     }
     // 4. simplify the stack
-    for specs in simplify_specs(&c.specs) {
-        let mut t = c.clone();
-        t.specs = specs;
-        out.push(t);
+    if prop == "C07" {
+        // the twin must stay the altroot's underlying spec, and the altroot must stay on top
+        for s0 in simplify_spec(&c.specs[0]) {
+            if let Spec::Alt { inner, .. } = &s0 {
+                let mut t = c.clone();
+                t.specs = vec![s0.clone(), (**inner).clone()];
+                out.push(t);
+            }
+        }
+    } else if prop == "C02" {
+        // the pair is fixed: memory vs physical
+    } else {
+        for specs in simplify_specs(&c.specs) {
+            let mut t = c.clone();
+            t.specs = specs;
+            out.push(t);
+        }
     }
     // 5. shrink payloads / scripts
     for i in 0..n {
